@@ -27,7 +27,8 @@ LEVEL_TEXT = ("Machine-checked for all inputs: (1) walker_eq_recursion / walker_
               "issues exactly the event sequence of the recursive traversal and restores the invoker and node-list stacks; "
               "(1b) core_refines_spec_partial — the same loop with data (current-node stack, node lists, output through the pending start tag; "
               "selects / rule choice / branches / strings by an arbitrary oracle of the context) delivers exactly normalize of the recursive "
-              "specification for the fragment value-of / LRE / call-template / choose / for-each / apply-templates; "
+              "specification for the fragment value-of / attributes / copy-of, comment, PI / LRE / call-template / choose / for-each / "
+              "apply-templates; "
               "(2) variables_lexical(_params) / variables_lookup_pure / variables_balanced — VariablesStack::findEntry returns the innermost binding of the current template "
               "instance, else the global one, whatever the callers' frames hold, and popContextMarker discards a frame whole; "
               "(3) pending_refines_spec / pending_wellformed — for every sequence of engine calls the pending-start-tag protocol of "
@@ -42,7 +43,8 @@ LEVEL_NOTE = ("Partial: the refinement proof to the recursive specification (cor
               "assurance is differential testing against the Lean specification, bounded by generator coverage (subset: template "
               "rules with match/name/mode/priority, apply-templates, call-template, for-each, sort, value-of, copy, copy-of, element, "
               "attribute, text, comment, processing-instruction, if, choose, variable, param, with-param, literal result elements with "
-              "AVTs, global variables, attribute sets, keys, xsl:number (value / level / count), strip-space, import chains + apply-imports; "
+              "AVTs, global variables, attribute sets (merged by import precedence), keys, xsl:number (value / level / count / from, "
+              "multi-token formats), strip-space, import trees + include + apply-imports; "
               "XPath: 10 axes, node tests, predicates, 31 functions, integer arithmetic; no namespaces, non-integer numbers, "
               "xsl:include). Walker model: conditions / node counts / selected templates are parameters of the tree, "
               "the direct-template shortcut is treated as a call; Variables model: values and names are numbers, lazily evaluated "
